@@ -964,6 +964,19 @@ def tamper_catalogue(case, st):
             out.append(("out-spk-honest-hash160-under-witness-%s" % vn,
                         mut(lambda s, t, vop=vop: t["outs"][ci].__setitem__("spk", bytes([vop, 0x14]) + S.hash160(script)))))
 
+        # the honest scriptPubKey spelled with a NON-MINIMAL push of the hash (OP_PUSHDATA1): the template rules of BIP16 /
+        # BIP141 are byte-exact, so this output is neither P2SH nor a witness program -- whoever knows the script can spend it
+        # without any signature -- and must not be summarised as the wallet's change (reported by the C11-E sub-agent)
+        def respell(spk):
+            if spk[:2] == b"\xa9\x14":
+                return b"\xa9\x4c\x14" + spk[2:]
+            if spk[:2] in (b"\x00\x20", b"\x00\x14"):
+                return b"\x00\x4c" + spk[1:]
+            return None
+        hon_spk = tx["outs"][ci]["spk"]
+        if respell(hon_spk) is not None:
+            out.append(("out-spk-honest-hash-nonminimal-push", mut(lambda s, t: t["outs"][ci].__setitem__("spk", respell(hon_spk)))))
+
         def nest_v(s, t, vop):
             # nested metadata (RedeemScript = P2WSH program of the honest script) under OP_n <hash160(RedeemScript)>
             s["outputs"][ci]["witness_script"] = script
